@@ -34,8 +34,9 @@ PY_SEMANTICS = [
     "nested mutable containers obtained by d[k] are modelled as views that write back to the parent; two "
     "different keys never alias the same inner container (no sharing of inner lists/dicts)",
     "iterating a container snapshots it at loop entry (the verified loops do not mutate what they iterate)",
-    "the element and filter expressions of a comprehension over a symbolic sequence are evaluated as total expressions: an "
-    "exception inside a comprehension (a KeyError of d[k], say) is not explored as a path",
+    "the element of a list comprehension over a symbolic sequence is evaluated once as code at an arbitrary position, so an "
+    "exception it may raise (a KeyError of d[k], say) is a path; the element and filter expressions of generator, set and dict "
+    "comprehensions and the filters of list comprehensions are evaluated as total expressions (an exception there is not explored)",
     "iter(x) is a position in the traversal of x, next() advances it, a traversal takes what is left; an iterator used "
     "again after a traversal is out of reach",
     "a recursive function verified through its own contract is verified for partial correctness (termination is not shown)",
